@@ -40,11 +40,11 @@ type c15Block struct {
 // root. alive = currently stored set (descendants of the current root that
 // were added); kids[p] = added children of p in the order they were added.
 type c15Model struct {
-	b     []c15Block
-	root  int
-	alive []bool
-	added []bool // was ever added successfully (or is the original root)
-	kids  [][]int
+	b      []c15Block
+	root   int
+	alive  []bool
+	added  []bool // was ever added successfully (or is the original root)
+	kids   [][]int
 	byHash map[common.Hash]int
 }
 
